@@ -2,6 +2,7 @@ package link_solicit
 
 import (
 	"bytes"
+	"encoding/binary"
 	"slices"
 
 	"github.com/aperturerobotics/bifrost/peer"
@@ -38,8 +39,13 @@ func ComputeSessionID(peerA, peerB peer.ID) []byte {
 
 // ComputeProtocolHash returns BLAKE3(session_id || protocol_id || context).
 func ComputeProtocolHash(sessionID []byte, protocolID protocol.ID, context []byte) []byte {
+	// length-prefix the protocol id so that (protocolID, context) is framed unambiguously
+	var pidLen [binary.MaxVarintLen64]byte
+	n := binary.PutUvarint(pidLen[:], uint64(len(protocolID)))
+
 	h := blake3.New()
 	h.Write(sessionID)
+	h.Write(pidLen[:n])
 	h.Write([]byte(protocolID))
 	h.Write(context)
 
